@@ -65,7 +65,16 @@ func expandC20(_ *testing.T, seed uint64, tier string) []*core.Plan {
 		p.SetKnob("parsub", r.Pick(1, 2, 3))
 		n = r.Range(6, 16)
 	}
+	idleAt := -1
+	if p.Knob("parsub", 0) > 0 && r.Chance(1, 2) {
+		// a quiet period longer than the token timeout between two bursts: a
+		// token wait that ended in time must not come back to haunt a later one
+		idleAt = n / 2
+	}
 	for i := 0; i < n; i++ {
+		if i == idleAt {
+			p.Items = append(p.Items, core.Item{K: "idle", A: r.Pick(2500, 6000)})
+		}
 		ty := 1 + r.Intn(14)
 		if r.Chance(2, 3) {
 			// mostly requests that deserve a response
@@ -162,6 +171,9 @@ func runC20(t *testing.T, p *core.Plan) *core.Result {
 	cfg := DefaultConfig()
 	cfg.Chunk = p.Knob("chunk", 0)
 	cfg.ParPublishes, cfg.ParSubscribes = 64, p.Knob("parsub", 64)
+	if p.Knob("parsub", 0) > 0 {
+		cfg.TokenTimeout = 2 * time.Second
+	}
 	creds := p.Knob("creds", 1) == 1
 	if creds {
 		cfg.Credentials = map[string]string{"u1": "u1-pw"}
@@ -172,6 +184,12 @@ func runC20(t *testing.T, p *core.Plan) *core.Result {
 		pr := w.NewPeer("c20")
 		var sent []packet.Generic
 		for _, it := range p.Items {
+			if it.K == "idle" {
+				w.Settle()
+				w.Advance(time.Duration(it.A) * time.Millisecond)
+				res.Count("idle_periods", 1)
+				continue
+			}
 			if it.K != "pkt" {
 				continue
 			}
